@@ -64,7 +64,7 @@ def case_lines(dialect, rd, subs=(), psubs=(), nsubs=()):
     for name in rd['entities']: out.append(hx(name)); emit_node(rd['defs'][name], out)
     for ss in (subs, psubs, nsubs):
         out.append(str(len(ss)))
-        for k, c in ss: out.append('%s %d' % (hx(k), c))
+        for e, k in ss: out.append('%s %s' % (hx(e), hx(k)))
     return out
 
 
